@@ -14,7 +14,6 @@
 import Model.Template
 import Model.JsonGrammar
 import Proofs.JsonAccept
-import Proofs.LineAccept
 import Proofs.FlowTieImport
 import Proofs.RowTieText
 
@@ -82,49 +81,6 @@ example : Json.accepts [0x7B, 0x7D, 0x7B, 0x7D] = false := by rfl             --
 example : Json.accepts [0x7B, 0x7D, 0x20, 0x78] = false := by rfl             -- {} x
 example : Json.accepts [0x7B] = false := by rfl                               -- {: truncated
 example : Json.accepts [0xEF, 0xBB, 0xBF, 0x7B, 0x7D] = false := by rfl       -- BOM
-
-/-! ### With a TEMPLATE: accepted iff one JSON object whose declared columns convert (`Proofs/LineAccept`)
-
-  `LineAccept.ConvertsAll env ti line` folds the members the reader delivers, in order, through the import of each into
-  the cell the row holds under its name at that moment (a declared column: `Value.Import` under the column's
-  descriptor; an undeclared name: an Auto cell), and says that none reports an error. -/
-
-/-- The property itself for a templated importer, any environment: `GetRow` accepts a line IFF it is exactly one JSON
-    object (the RFC 8259 grammar over bytes) AND its declared columns convert. -/
-theorem templated_accept_iff (env : Env) (ti : Tmpl) (line : Bytes) :
-    (∃ r, getRow env ti line = .ok (r, none)) ↔
-      Grammar.IsObjectText line ∧ LineAccept.ConvertsAll env ti line = true :=
-  LineAccept.getRow_accepts_iff env ti line
-
-/-- "Declared columns convert", spelled out over the regenerated tables for templates of distinct column names (what
-    builder calls make): for EVERY member `(k, v)` of the object — repeated names included — and every declared column
-    `k : (f, ty)`, the import of `v` under `(f, ty)` reports no error.  (A value never changes a column's declaration,
-    `LineAccept.descAt_step`; undeclared names always convert.) -/
-theorem converts_all_iff (ext : Ext) (ti : Tmpl) (line : Bytes)
-    (hnd : (OMap.keys ti).Nodup) (hp : LineAccept.Proto ti) :
-    LineAccept.ConvertsAll ⟨genTables, ext⟩ ti line = true ↔
-      ∀ k v, (k, v) ∈ (Json.unmarshal line).1.toList →
-        ∀ f ty, OMap.lookup ti k = some (.cell .nil f ty) →
-          LineAccept.ImportsOK ⟨genTables, ext⟩ f ty (LineAccept.dynOf ext v) :=
-  LineAccept.gen_convertsAll_iff ext ti line hnd hp
-
-/-- Through importer AND exporter: a line is emitted IFF it is one JSON object, its declared columns convert, and every
-    visible cell of the exporter's row renders (any environment). -/
-theorem line_emitted_iff (env : Env) (ti to : Tmpl) (line : Bytes) :
-    (∃ b, jlLine env ti to line = .ok (b, none)) ↔
-      Grammar.IsObjectText line ∧ LineAccept.ConvertsAll env ti line = true ∧
-        LineAccept.RendersAll env to (LineAccept.importedRow env ti line) = true :=
-  LineAccept.jlLine_accepts_iff env ti to line
-
-/-- …and in every other case NOTHING is written: over the regenerated tables the outcome of a line is one line written,
-    or an error with zero bytes, or the model's abstention (a standard-library answer it was not given) — never a
-    panic. -/
-theorem line_outcomes (ext : Ext) (ti to : Tmpl) (line : Bytes) :
-    (∃ body, jlLine ⟨genTables, ext⟩ ti to line = .ok (body ++ [0x0A], none)) ∨
-      (∃ e, jlLine ⟨genTables, ext⟩ ti to line = .ok ([], some e)) ∨
-      jlLine ⟨genTables, ext⟩ ti to line = .err .ext :=
-  LineAccept.gen_jlLine_cases ext ti to line
-
 
 /-! ### The reader of the model is the source's (Proofs/FlowTieImport, Proofs/RowTieText) -/
 
